@@ -65,7 +65,13 @@ func catalogEntries(o drv.Outcome) (map[string]string, error) {
 	return m, nil
 }
 
+// corpusC10Hook runs the same oracle over the repository's fixtures (set in the verif build).
+var corpusC10Hook func(c *fw.Ctx)
+
 func runC10(c *fw.Ctx) {
+	if corpusC10Hook != nil {
+		corpusC10Hook(c)
+	}
 	maxDecl := 5
 	if !c.Quick() {
 		maxDecl = 6
